@@ -229,6 +229,9 @@ class Tr:
                     if lty != rty:
                         raise Unsupported("`+` of sequences with different element types in `%s`" % key)
                     return "(%s ++ %s)" % (lt, rt), lty
+                if isinstance(node.op, ast.Mult) and isinstance(lty, tuple) and lty[0] == "list" and rty == Z:
+                    # xs * n: n copies of xs (none when n <= 0), as in Python
+                    return "(py_list_mul %s %s)" % (lt, rt), lty
                 a = self.as_int(node.left, env, narrowed)
                 b = self.as_int(node.right, env, narrowed)
                 op = {ast.Add: "+", ast.Sub: "-", ast.Mult: "*"}[type(node.op)]
@@ -300,7 +303,7 @@ class Tr:
             if bty != oty:
                 raise Unsupported("branches of `%s` have different types %s / %s" % (key, bty, oty))
             return "(if %s then %s else %s)" % (c, bt, ot), bty
-        if isinstance(node, ast.Tuple):
+        if isinstance(node, (ast.Tuple, ast.List)):
             if not node.elts:
                 raise Unsupported("empty tuple display (element type unknown)")
             parts = [self.expr(e, env, narrowed) for e in node.elts]
@@ -612,7 +615,7 @@ Open Scope Z_scope.
 
 def header(spec, fn_src):
     safe = fn_src.replace("(*", "( *").replace("*)", "* )")
-    return HEADER % (spec["file"], spec["qual"], textwrap.indent(safe, "   "))
+    return HEADER % (spec["file"], spec["qual"], textwrap.indent(safe, "   ")) + spec.get("extra_header", "")
 
 
 GLUE_CHILDREN = (
@@ -750,6 +753,12 @@ def t_loopfun(spec, fn, text):
         env[n] = (coq_name(n), ty)
     state = []
     for sub in ast.walk(loop):
+        # `xs[e] = e'` stores into the list bound to the state variable xs
+        if isinstance(sub, ast.Subscript) and isinstance(sub.ctx, ast.Store):
+            if not isinstance(sub.value, ast.Name) or sub.value.id not in env or sub.value.id in spec.get("env", {}):
+                raise Unsupported("item assignment to `%s`" % src(sub.value))
+            if sub.value.id not in state:
+                state.append(sub.value.id)
         if isinstance(sub, ast.Name) and isinstance(sub.ctx, ast.Store):
             in_target = any(sub is n for n in ast.walk(loop.target))
             if in_target:
@@ -781,6 +790,25 @@ def t_loopfun(spec, fn, text):
             if s.value is None:
                 raise Unsupported("bare return")
             return tr.expr(s.value, e)
+        if (
+            isinstance(s, ast.Assign)
+            and len(s.targets) == 1
+            and isinstance(s.targets[0], ast.Subscript)
+            and isinstance(s.targets[0].value, ast.Name)
+            and s.targets[0].value.id in state
+            and not isinstance(s.targets[0].slice, ast.Slice)
+        ):
+            # xs[k] = v  ->  xs := py_setitem xs k v  (IndexError: outside every theorem's precondition)
+            n = s.targets[0].value.id
+            lt, lty = e[n]
+            if not (isinstance(lty, tuple) and lty[0] == "list"):
+                raise Unsupported("item assignment to non-list `%s`" % n)
+            kt = tr.as_int(s.targets[0].slice, e, frozenset())
+            vt, vty = tr.expr(s.value, e)
+            if vty != lty[1]:
+                raise Unsupported("item assignment of %s into %s" % (vty, lty))
+            bt, bty = block(rest, e)
+            return "(let %s := (py_setitem %s %s %s) in %s)" % (coq_name(n), lt, kt, vt, bt), bty
         if isinstance(s, ast.Assign):
             n, t, ty = tr.assign(s, e)
             if n not in state and n in e:
@@ -926,6 +954,14 @@ TARGETS = {
         skip=["if length <= 0:\n    raise ValueError('length argument must be positive')"],
         ret=Z,
     ),
+    "perm_inv": dict(
+        name="perm_inv", out="PermInv", kind=t_loopfun,
+        file="comb_spec_searcher/isomorphism.py", qual="Bijection._perm_inv",
+        decorators=["staticmethod"], args=["perm"],
+        params=[("perm", TList(Z))], env={"perm": TList(Z)},
+        extra_header="From CSS Require Import Gen.PreludeSeq.\n\n",
+        ret=TList(Z),
+    ),
     "compositions": dict(
         name="compositions", out="Compositions", kind=t_generator,
         file="comb_spec_searcher/utils.py", qual="compositions",
@@ -973,6 +1009,23 @@ Definition py_assert {A} (c : bool) (rest : list A) : list A := if c then rest e
 """
 
 
+PRELUDE_SEQ = """(* GENERATED by harness/translate.py (fixed text) — list primitives used by the
+   definitions translated from loops that build a list in place.  DO NOT EDIT. *)
+From Coq Require Import ZArith List Bool.
+From CSS Require Export Base.PyList.
+Import ListNotations.
+Open Scope Z_scope.
+
+(* xs * n : n copies of xs, none when n <= 0 *)
+Definition py_list_mul {A} (l : list A) (n : Z) : list A := concat (repeat l (Z.to_nat n)).
+
+(* xs[k] = v : negative indices wrap once as in Python; where Python raises
+   IndexError the list is returned unchanged (outside every theorem's precondition). *)
+Definition py_setitem {A} (l : list A) (k : Z) (v : A) : list A :=
+  match py_set l k v with Some l' => l' | None => l end.
+"""
+
+
 def translate_target(name, source=None):
     """Gallina text for one target; `source` overrides the file content (used
     by the fail-closed self-test of the plugin)."""
@@ -997,6 +1050,7 @@ def regenerate(targets=None):
     try:
         changed = core.write_if_changed(os.path.join(GEN_DIR, "Prelude.v"), PRELUDE)
         log.append("Prelude: %s" % ("rewritten" if changed else "unchanged"))
+        core.write_if_changed(os.path.join(GEN_DIR, "PreludeSeq.v"), PRELUDE_SEQ)
     except OSError as ex:
         return {"ok": False, "log": "cannot write Gen/Prelude.v: %s" % ex}
     for name in names:
